@@ -320,4 +320,85 @@ theorem fuel_erase (vars : Vars) (doc : Doc) : (eraseDoc vars doc).fuel = doc.fu
   simp only [weights_erase]
   simp [eraseOp, potL_erase, List.map_map, Function.comp_def]
 
+/-! ### `_selected_paths` with the lenient hook = strict `_selected_paths` on the erased document -/
+
+theorem pathsLoop_sim (vars : Vars) (md : Nat) (pat : List String → Bool) (path : List String)
+    (rec recE : List Sel → List String → Except Err (List (List String)))
+    (hrec : ∀ ss p, recE (eraseL vars ss) p = rec ss p) :
+    ∀ (G : Grouped) (acc : List (List String)),
+      pathsLoop recE md pat path acc (eraseG vars G) = pathsLoop rec md pat path acc G := by
+  intro G
+  induction G with
+  | nil => intro acc; simp [pathsLoop, eraseG]
+  | cons kv rest ih =>
+    intro acc
+    obtain ⟨k, fs⟩ := kv
+    cases fs with
+    | nil => simp [pathsLoop, eraseG]
+    | cons child more =>
+      have h1 : pathsLoop recE md pat path acc (eraseG vars ((k, child :: more) :: rest)) =
+          (if descend md path.length = true then
+            match recE (eraseL vars ((child :: more).flatMap (·.sub))) (path ++ [child.name]) with
+            | .error e => .error e
+            | .ok sub => pathsLoop recE md pat path
+                ((if pat (path ++ [child.name]) = true then acc ++ [path ++ [child.name]] else acc) ++ sub) (eraseG vars rest)
+          else pathsLoop recE md pat path
+                (if pat (path ++ [child.name]) = true then acc ++ [path ++ [child.name]] else acc) (eraseG vars rest)) := by
+        rw [← flatMap_sub_erase]
+        rfl
+      have h2 : pathsLoop rec md pat path acc ((k, child :: more) :: rest) =
+          (if descend md path.length = true then
+            match rec ((child :: more).flatMap (·.sub)) (path ++ [child.name]) with
+            | .error e => .error e
+            | .ok sub => pathsLoop rec md pat path
+                ((if pat (path ++ [child.name]) = true then acc ++ [path ++ [child.name]] else acc) ++ sub) rest
+          else pathsLoop rec md pat path
+                (if pat (path ++ [child.name]) = true then acc ++ [path ++ [child.name]] else acc) rest) := rfl
+      rw [h1, h2, hrec]
+      split
+      · cases rec ((child :: more).flatMap (·.sub)) (path ++ [child.name]) with
+        | error e => rfl
+        | ok sub => exact ih _
+      · exact ih _
+
+theorem selectedPaths_sim (vars : Vars) (frags : List Frag) (md : Nat) (pat : List String → Bool) :
+    ∀ (k : Nat) (sels : List Sel) (path : List String),
+      selectedPaths k (eraseL vars sels) (eraseFrags vars frags) vars md pat path =
+        selectedPathsG skipSelectionT k sels frags vars md pat path := by
+  intro k
+  induction k with
+  | zero => intro sels path; rfl
+  | succ k ih =>
+    intro sels path
+    have h1 : selectedPaths (k + 1) (eraseL vars sels) (eraseFrags vars frags) vars md pat path =
+        (match collectFieldsUntyped (k + 1) (eraseL vars sels) (eraseFrags vars frags) vars [] with
+         | .error e => .error e
+         | .ok (collected, _) =>
+           pathsLoop (fun s p => selectedPaths k s (eraseFrags vars frags) vars md pat p) md pat path [] collected) := rfl
+    have h2 : selectedPathsG skipSelectionT (k + 1) sels frags vars md pat path =
+        (match collectFieldsUntypedG skipSelectionT (k + 1) sels frags vars [] with
+         | .error e => .error e
+         | .ok (collected, _) =>
+           pathsLoop (fun s p => selectedPathsG skipSelectionT k s frags vars md pat p) md pat path [] collected) := rfl
+    rw [h1, h2, collect_sim vars frags (k + 1) sels []]
+    cases collectFieldsUntypedG skipSelectionT (k + 1) sels frags vars [] with
+    | error e => rfl
+    | ok r =>
+      obtain ⟨G, S'⟩ := r
+      simp only [eraseSt]
+      exact pathsLoop_sim vars md pat path _ _ (fun ss p => ih ss p) G []
+
+theorem eraseL_nil_iff (vars : Vars) (l : List Sel) : eraseL vars l = [] ↔ l = [] := by
+  cases l <;> simp [eraseL]
+
+theorem selectedFields_sim (vars : Vars) (frags : List Frag) (md : Nat) (pat : List String → Bool)
+    (k : Nat) (sub : List Sel) (path : List String) :
+    selectedFields k (eraseL vars sub) (eraseFrags vars frags) vars md pat path =
+      selectedFieldsG skipSelectionT k sub frags vars md pat path := by
+  cases sub with
+  | nil => simp [selectedFields, selectedFieldsG, eraseL]
+  | cons s ss =>
+    simp only [selectedFields, selectedFieldsG, eraseL_cons]
+    exact selectedPaths_sim vars frags md pat k (s :: ss) path
+
 end PyGql.Depth.Lemmas
